@@ -245,7 +245,7 @@ class Indicator(_DomainObject):
 
     def __init__(self, *args, **kwargs):
 
-        if kwargs.get('pattern') and kwargs.get('pattern_type') == 'stix' and not kwargs.get('pattern_version'):
+        if kwargs.get('pattern') and kwargs.get('pattern_type') == 'stix' and kwargs.get('pattern_version') is None:
             kwargs['pattern_version'] = '2.1'
 
         super(Indicator, self).__init__(*args, **kwargs)
